@@ -543,6 +543,200 @@ def gen_closure_tables(cmp_: ast.AST, ad: ast.AST) -> str:
     return "\n".join(out) + "\n"
 
 
+
+# ----------------------------------------------------------------------------- solver glue
+
+
+def _u(n) -> str:
+    return ast.unparse(n).strip()
+
+
+def _glue_src(call: ast.AST, arg: str) -> str:
+    """which library compiler a cached callable comes from, by the exact call"""
+    t = _u(call)
+    table = {f"compile_expression({arg}, variables)": ".compileExpression",
+             f"compile_jacobian([{arg}], variables)": ".compileJacobian1",
+             f"compile_hessian({arg}, variables)": ".compileHessian"}
+    if t not in table:
+        raise TranslateError(f"solver glue: callable built by {t!r} (line {call.lineno}), expected one of {sorted(table)}")
+    return table[t]
+
+
+def _neg_on_maximize(stmts: list[ast.stmt], var: str, where: str) -> bool:
+    """is there exactly `if problem.sense == 'maximize': var = -var` among the statements?"""
+    hits = [st for st in stmts if isinstance(st, ast.If) and _u(st.test) == "problem.sense == 'maximize'"]
+    if not hits:
+        return False
+    if len(hits) > 1 or hits[0].orelse or len(hits[0].body) != 1 or _u(hits[0].body[0]) != f"{var} = -{var}":
+        raise TranslateError(f"solver glue: {where}: unexpected maximise handling {_u(hits[0])[:80]!r}")
+    return True
+
+
+def _lambda_sign(node: ast.AST, default_name: str, default_val: str, body: str, where: str) -> bool:
+    """`lambda x, <default_name>=<default_val>: [-]<body>`  ->  is it negated?"""
+    if not isinstance(node, ast.Lambda):
+        raise TranslateError(f"solver glue: {where}: expected a lambda, found {_u(node)[:60]!r}")
+    a = node.args
+    if [x.arg for x in a.args] != ["x", default_name] or len(a.defaults) != 1 or _u(a.defaults[0]) != default_val \
+            or a.vararg or a.kwarg or a.kwonlyargs:
+        raise TranslateError(f"solver glue: {where}: lambda signature {_u(node)[:60]!r}")
+    b = _u(node.body)
+    if b == body:
+        return False
+    if b == "-" + body:
+        return True
+    raise TranslateError(f"solver glue: {where}: lambda body {b!r}, expected [-]{body}")
+
+
+def gen_solver_glue(sc: ast.AST) -> str:
+    """`_build_solver_cache` and the call site of `scipy.optimize.minimize` in `solve_scipy`:
+    which compiler produces each callable, where signs are flipped, what is passed under which
+    keyword.  Statements outside the whitelisted shape raise TranslateError."""
+    out = []
+    fn = find_func(sc, "_build_solver_cache")
+    body = [st for st in fn.body if not (isinstance(st, ast.Expr) and isinstance(st.value, ast.Constant))
+            and not isinstance(st, ast.ImportFrom)]
+    seen = {}
+    con_table = None
+    for st in body:
+        t = _u(st)
+        if t in ("cache: dict[str, Any] = {}", "obj_expr = problem.objective", "bounds = []",
+                 "cache['bounds'] = bounds", "scipy_constraints = []",
+                 "cache['scipy_constraints'] = scipy_constraints", "return cache"):
+            seen[t] = seen.get(t, 0) + 1
+            continue
+        if isinstance(st, ast.If) and _u(st.test) == "obj_expr is None":
+            if not (len(st.body) == 1 and isinstance(st.body[0], ast.Raise) and not st.orelse):
+                raise TranslateError("solver glue: missing-objective branch is not a bare raise")
+            continue
+        if isinstance(st, ast.If) and _u(st.test) == "problem.sense == 'maximize'":
+            continue  # analysed by _neg_on_maximize below
+        if isinstance(st, ast.Assign) and _u(st.targets[0]) == "cache['obj_fn']":
+            seen["obj_fn"] = _glue_src(st.value, "obj_expr")
+            continue
+        if isinstance(st, ast.Assign) and _u(st.targets[0]) == "cache['grad_fn']":
+            seen["grad_fn"] = _glue_src(st.value, "obj_expr")
+            continue
+        if isinstance(st, ast.For) and _u(st.iter) == "variables":
+            want = ["lb = v.lb if v.lb is not None else -np.inf", "ub = v.ub if v.ub is not None else np.inf",
+                    "bounds.append((lb, ub))"]
+            if [_u(x) for x in st.body] != want or _u(st.target) != "v" or st.orelse:
+                raise TranslateError(f"solver glue: bounds loop {[_u(x) for x in st.body]}")
+            seen["bounds_loop"] = True
+            continue
+        if isinstance(st, ast.For) and _u(st.iter) == "problem.constraints":
+            if _u(st.target) != "c" or st.orelse:
+                raise TranslateError("solver glue: constraint loop header")
+            inner = list(st.body)
+            if len(inner) != 5 or _u(inner[0]) != "c_expr = c.expr" or \
+                    not (isinstance(inner[1], ast.If) and _u(inner[1].test) == "c_expr is None"
+                         and [_u(x) for x in inner[1].body] == ["continue"] and not inner[1].orelse):
+                raise TranslateError(f"solver glue: constraint loop body {[_u(x)[:40] for x in inner]}")
+            for k, (tgt, key) in enumerate((("c_fn", "con_fn"), ("c_jac_fn", "con_jac"))):
+                a = inner[2 + k]
+                if not (isinstance(a, ast.Assign) and _u(a.targets[0]) == tgt):
+                    raise TranslateError(f"solver glue: expected assignment to {tgt}, found {_u(a)[:60]!r}")
+                seen[key] = _glue_src(a.value, "c_expr")
+            cur = inner[4]
+            rows = []
+            while True:
+                if not isinstance(cur, ast.If):
+                    raise TranslateError("solver glue: constraint sense chain")
+                test = _u(cur.test)
+                if not test.startswith("c.sense == "):
+                    raise TranslateError(f"solver glue: constraint sense test {test!r}")
+                rows.append((ast.literal_eval(cur.test.comparators[0]), cur.body))
+                if len(cur.orelse) == 1 and isinstance(cur.orelse[0], ast.If):
+                    cur = cur.orelse[0]
+                    continue
+                rows.append(("else", cur.orelse))
+                break
+            con_table = []
+            for sense, blk in rows:
+                if len(blk) != 1 or not _u(blk[0]).startswith("scipy_constraints.append("):
+                    raise TranslateError(f"solver glue: branch {sense!r} is not a single append")
+                d = blk[0].value.args[0]
+                if not isinstance(d, ast.Dict) or [ast.literal_eval(k) for k in d.keys] != ["type", "fun", "jac"]:
+                    raise TranslateError(f"solver glue: branch {sense!r}: dictionary keys")
+                typ = ast.literal_eval(d.values[0])
+                fneg = _lambda_sign(d.values[1], "fn", "c_fn", "float(fn(x))", f"{sense} fun")
+                jneg = _lambda_sign(d.values[2], "jfn", "c_jac_fn", "jfn(x).flatten()", f"{sense} jac")
+                con_table.append((sense, typ, fneg, jneg))
+            continue
+        raise TranslateError(f"solver glue: statement outside the whitelist in _build_solver_cache: {t[:70]!r}")
+    for need in ("obj_fn", "grad_fn", "con_fn", "con_jac", "bounds_loop", "return cache",
+                 "cache['scipy_constraints'] = scipy_constraints", "cache['bounds'] = bounds"):
+        if need not in seen:
+            raise TranslateError(f"solver glue: _build_solver_cache lacks {need}")
+    if con_table is None:
+        raise TranslateError("solver glue: no constraint loop")
+    b = lambda v: "true" if v else "false"
+    out.append("inductive GlueSrc | compileExpression | compileJacobian1 | compileHessian\n  deriving DecidableEq, Repr")
+    out.append("structure GlueCon where\n  sense : String\n  type : String\n  funNeg : Bool\n  jacNeg : Bool\n  deriving DecidableEq, Repr")
+    out.append(f"def glueNegateOnMaximize : Bool := {b(_neg_on_maximize(body, 'obj_expr', '_build_solver_cache'))}")
+    out.append(f"def glueObjFn : GlueSrc := {seen['obj_fn']}")
+    out.append(f"def glueGradFn : GlueSrc := {seen['grad_fn']}")
+    out.append(f"def glueConFn : GlueSrc := {seen['con_fn']}")
+    out.append(f"def glueConJac : GlueSrc := {seen['con_jac']}")
+    out.append("def glueConTable : List GlueCon := [" + ", ".join(
+        f"⟨{json.dumps(s_)}, {json.dumps(t_)}, {b(f_)}, {b(j_)}⟩" for s_, t_, f_, j_ in con_table) + "]")
+
+    # ---- solve_scipy: wrappers, Hessian source, the minimize call, the reported objective value
+    sv = find_func(sc, "solve_scipy")
+    inner_defs = {n.name: n for n in sv.body if isinstance(n, ast.FunctionDef)}
+    for nm, want in (("objective", "return float(obj_fn(x))"), ("gradient", "return grad_fn(x).flatten()")):
+        if nm not in inner_defs:
+            raise TranslateError(f"solver glue: solve_scipy lacks the wrapper {nm}")
+        bd = [x for x in inner_defs[nm].body if not (isinstance(x, ast.Expr) and isinstance(x.value, ast.Constant))]
+        if [_u(x) for x in bd] != [want] or [a.arg for a in inner_defs[nm].args.args] != ["x"]:
+            raise TranslateError(f"solver glue: wrapper {nm} is {[_u(x) for x in bd]}, expected [{want!r}]")
+    out.append('def glueObjectiveWrapper : String := "float(obj_fn(x))"')
+    out.append('def glueGradientWrapper : String := "grad_fn(x).flatten()"')
+    for nm, key in (("obj_fn", "obj_fn"), ("grad_fn", "grad_fn"), ("scipy_constraints", "scipy_constraints")):
+        if not any(_u(st) == f"{nm} = cache['{key}']" for st in sv.body):
+            raise TranslateError(f"solver glue: solve_scipy does not read {nm} from cache[{key!r}]")
+    hess_if = [st for st in sv.body if isinstance(st, ast.If) and _u(st.test) == "use_hessian and method in HESSIAN_METHODS"]
+    if len(hess_if) != 1:
+        raise TranslateError("solver glue: Hessian block of solve_scipy not found")
+    miss = [st for st in hess_if[0].body if isinstance(st, ast.If) and _u(st.test) == "'hess_fn' not in cache"]
+    if len(miss) != 1:
+        raise TranslateError("solver glue: `'hess_fn' not in cache` block not found")
+    hsrc = None
+    for st in miss[0].body:
+        if isinstance(st, ast.Assign) and _u(st.targets[0]) == "compiled_hess":
+            hsrc = _glue_src(st.value, "obj_expr")
+    if hsrc is None:
+        raise TranslateError("solver glue: compiled_hess assignment not found")
+    out.append(f"def glueHessFn : GlueSrc := {hsrc}")
+    out.append(f"def glueHessNegateOnMaximize : Bool := {b(_neg_on_maximize(miss[0].body, 'obj_expr', 'Hessian block'))}")
+    calls = [n for n in ast.walk(sv) if isinstance(n, ast.Call) and _u(n.func) == "minimize"]
+    if len(calls) != 1:
+        raise TranslateError(f"solver glue: {len(calls)} calls of minimize in solve_scipy, expected 1")
+    if calls[0].args:
+        raise TranslateError("solver glue: positional arguments in the minimize call")
+    kws = [(k.arg if k.arg is not None else "**", _u(k.value)) for k in calls[0].keywords]
+    out.append("def glueMinimizeKw : List (String × String) := [" +
+               ", ".join(f"({json.dumps(k)}, {json.dumps(v)})" for k, v in kws) + "]")
+    ug = [st for st in ast.walk(sv) if isinstance(st, ast.Assign) and _u(st.targets[0]) == "use_gradient"]
+    if len(ug) != 1:
+        raise TranslateError("solver glue: use_gradient assignment")
+    out.append(f"def glueUseGradient : String := {json.dumps(_u(ug[0].value))}")
+    # reported objective value: obj_value = float(result.fun); negated back under maximize
+    ov = [i for i, st in enumerate(sv.body) if _u(st) == "obj_value = float(result.fun)"]
+    if len(ov) != 1:
+        raise TranslateError("solver glue: `obj_value = float(result.fun)` not found exactly once")
+    out.append(f"def glueObjValueNegatedBack : Bool := {b(_neg_on_maximize(sv.body[ov[0]:], 'obj_value', 'objective value'))}")
+    rets = [st for st in sv.body if isinstance(st, ast.Return) and isinstance(st.value, ast.Call)
+            and _u(st.value.func) == "Solution"]
+    if len(rets) != 1:
+        raise TranslateError("solver glue: final `return Solution(...)` of solve_scipy")
+    kw = {k.arg: _u(k.value) for k in rets[0].value.keywords}
+    out.append("def glueSolutionKw : List (String × String) := [" +
+               ", ".join(f"({json.dumps(k)}, {json.dumps(v)})" for k, v in sorted(kw.items())
+                         if k in ("status", "objective_value", "values")) + "]")
+    return "\n".join(out) + "\n"
+
+
 HEADER = """/-
   GENERATED by harness/gen_tables.py from the optyx sources — do not edit.
   Regenerated before every build; the theorems that mention these definitions are
@@ -552,25 +746,46 @@ HEADER = """/-
 
 
 def main(repo: str, outdir: str, dry: bool = False) -> int:
-    """dry=True: report whether the files on disk differ from what the source says, write nothing"""
+    """dry=True: report whether the files on disk differ from what the source says, write nothing.
+    Each generated file is translated independently: a construct outside the translator's
+    whitelist leaves that file as it was and is reported under "errors" (exit code 3)."""
     os.makedirs(outdir, exist_ok=True)
-    ad = ast.parse(open(os.path.join(repo, "src/optyx/core/autodiff.py")).read())
-    rules = HEADER + "import Optyx.Syntax\n\nnamespace Optyx.Generated\nopen Optyx\n\n"
-    rules += "/-- marker produced for an operator the source has no rule for (the source raises there). -/\n"
-    rules += "def unsupportedRule : Expr := .param ⟨\"<unsupported-operator>\", 0⟩\n\n"
-    rules += gen_simplifiers(ad) + "\n"
-    rules += "/-! rules of `_gradient_cached` -/\n" + gen_rules(find_func(ad, "_gradient_cached"), "expr", "") + "\n"
-    rules += "/-! rules of `_gradient_iterative` -/\n" + gen_rules(find_func(ad, "_gradient_iterative"), "current", "Iter") + "\n"
-    vec = ast.parse(open(os.path.join(repo, "src/optyx/core/vectors.py")).read())
-    rules += "/-! per-operator tables of the vectorised unary sums -/\n" + gen_unsum_tables(ad, vec) + "\n"
-    rules += "end Optyx.Generated\n"
-    tables = HEADER + "namespace Optyx.Generated\n\n" + gen_tables(repo) + "\nend Optyx.Generated\n"
-    cmp_ = ast.parse(open(os.path.join(repo, "src/optyx/core/compiler.py")).read())
-    closures = (HEADER + "import Optyx.Py.Sanitize\n\nnamespace Optyx.Generated\nopen Optyx Optyx.Py\n\n"
-                + gen_closure_tables(cmp_, ad) + "\nend Optyx.Generated\n")
-    changed = False
-    for fname, text in (("GradRules.lean", rules), ("Tables.lean", tables), ("Closures.lean", closures)):
-        path = os.path.join(outdir, fname)
+    src = lambda p: ast.parse(open(os.path.join(repo, "src/optyx", p)).read())
+
+    def f_rules():
+        ad, vec = src("core/autodiff.py"), src("core/vectors.py")
+        r = HEADER + "import Optyx.Syntax\n\nnamespace Optyx.Generated\nopen Optyx\n\n"
+        r += "/-- marker produced for an operator the source has no rule for (the source raises there). -/\n"
+        r += "def unsupportedRule : Expr := .param ⟨\"<unsupported-operator>\", 0⟩\n\n"
+        r += gen_simplifiers(ad) + "\n"
+        r += "/-! rules of `_gradient_cached` -/\n" + gen_rules(find_func(ad, "_gradient_cached"), "expr", "") + "\n"
+        r += "/-! rules of `_gradient_iterative` -/\n" + gen_rules(find_func(ad, "_gradient_iterative"), "current", "Iter") + "\n"
+        r += "/-! per-operator tables of the vectorised unary sums -/\n" + gen_unsum_tables(ad, vec) + "\n"
+        return r + "end Optyx.Generated\n"
+
+    def f_tables():
+        return HEADER + "namespace Optyx.Generated\n\n" + gen_tables(repo) + "\nend Optyx.Generated\n"
+
+    def f_closures():
+        return (HEADER + "import Optyx.Py.Sanitize\n\nnamespace Optyx.Generated\nopen Optyx Optyx.Py\n\n"
+                + gen_closure_tables(src("core/compiler.py"), src("core/autodiff.py")) + "\nend Optyx.Generated\n")
+
+    def f_glue():
+        return (HEADER + "namespace Optyx.Generated\n\n" + gen_solver_glue(src("solvers/scipy_solver.py"))
+                + "\nend Optyx.Generated\n")
+
+    changed, errors, h = False, {}, hashlib.sha256()
+    for fname, make in (("GradRules", f_rules), ("Tables", f_tables), ("Closures", f_closures), ("SolverGlue", f_glue)):
+        path = os.path.join(outdir, fname + ".lean")
+        try:
+            text = make()
+        except TranslateError as e:
+            errors[fname] = str(e)
+            continue
+        except (SyntaxError, OSError) as e:
+            errors[fname] = f"{type(e).__name__}: {e}"
+            continue
+        h.update(text.encode())
         old = open(path).read() if os.path.exists(path) else None
         if old != text:
             if not dry:
@@ -579,14 +794,9 @@ def main(repo: str, outdir: str, dry: bool = False) -> int:
                     f.write(text)
                 os.replace(tmp, path)
             changed = True
-    print(json.dumps({"changed": changed,
-                      "sha": hashlib.sha256((rules + tables + closures).encode()).hexdigest()[:16]}))
-    return 0
+    print(json.dumps({"changed": changed, "sha": h.hexdigest()[:16], "errors": errors}))
+    return 3 if errors else 0
 
 
 if __name__ == "__main__":
-    try:
-        sys.exit(main(sys.argv[1], sys.argv[2], dry="--dry" in sys.argv[3:]))
-    except TranslateError as e:
-        print(json.dumps({"translate_error": str(e)}))
-        sys.exit(3)
+    sys.exit(main(sys.argv[1], sys.argv[2], dry="--dry" in sys.argv[3:]))
